@@ -24,6 +24,20 @@ def check(pid, category, text, note, technique, design_ref, thorough=True):
         CHECKS[pid]["thorough_cmd"] = "python3 checks/%s.py --tier thorough" % pid.lower()
 
 
+check("C16", "fault_enumeration",
+      "Exhaustive fault enumeration on the real reader/builder/checker: for each of the six non-declaring label kinds the "
+      "label is replaced by every single-token fault of its base texts (delete, truncate, open comment, replace by / insert "
+      "each of 38 tokens at every token position) and by every token string of length <= 2 (quick) / 3 (thorough) over the "
+      "same alphabet, inside a model that shadows one name globally, template-locally and in select binders and uses it again "
+      "in later edges, the next template and the system section; the resulting document with that one label masked must equal "
+      "the fault-free document and every diagnostic must point at the faulted label. Declarations: 343 lists of three "
+      "declarations x fault in the 2nd/3rd x every truncation and token deletion, globally and template-locally: earlier "
+      "declarations present and unchanged.",
+      "Reference = the fault-free document parsed the same way (static analysis iff the faulted parse ran it). The faulted "
+      "label's value and document-wide summary flags are masked.",
+      "exhaustive fault enumeration (token positions x fault operators, all short token strings) with a differential oracle against the fault-free run",
+      "DESIGN.md §3/C16")
+
 check("C17", "exploration",
       "Matrix of (restricting feature, placement) cells decided on the real FeatureChecker: clock compared with a double "
       "literal/variable/call/expression under < <= == >= > in either operand order, alone and at each of three conjunct "
